@@ -23,7 +23,7 @@ def run(ctx):
     rej, abn = W.run_items(ctx, b, tools, items, JUDGE + ["C08read"], with_tools=False)
     W.report_all(ctx, rej, abn)
     ctx.sample({"item": items[0]["name"], "adds": [[k.hex(), v] for k, v in items[0]["adds"]][:10], "model_verdicts": items[0].get("exp")})
-    ctx.sample({"item": "pre-existing targets", "kinds": ["file", "emptyfile", "table", "dir", "symlink"]})
+    ctx.sample({"item": "pre-existing targets", "kinds": ["file", "emptyfile", "table", "dir", "symlink", "dangling symlink", "symlink to a directory"]})
     cov = {"states": ctx.cov.get("states", 0), "transitions": ctx.cov.get("transitions", 0),
            "traces_validated_against_impl": ctx.cov.get("traces_validated_against_impl", 0),
            "evaluations": ctx.cov.get("trace_events", 0), "distinct_nontrivial": ctx.cov.get("files", 0), "exhaustive": False}
